@@ -434,6 +434,13 @@ void gen_c10(Plan& p, bool thorough) {
       c.set("node", i ? "sse2" : "avx2");
       p.tasks[0].push_back(c);
     }
+  if (pp.kkw || pp.r == 4) // full-S-box instances: the aux / recording paths at volume, judged by the signer's own consistency check
+    for (int i = 0; i < (thorough ? 40 : (COST[prim] > 9 ? 6 : 16)); i++) {
+      Rng ro = rng_for(p.seed, {H("C10"), p.run, H("signok"), (uint64_t)i});
+      Case c = sign_case(ro, prim, "signok");
+      c.set("mlen", (int64_t)ro.below(40));
+      p.tasks[0].push_back(c);
+    }
   {
     Case b;
     for (int rep = 0; rep < (thorough ? 2 : 1); rep++) {
